@@ -443,7 +443,9 @@ def to_raw_tensor(a) -> numpy.ndarray | torch.tensor:
     The type of the returned tensor depends on the backend, i.e. ``numpy.ndarray`` or ``torch.tensor``.
     """
     if len(a.struct.D) == 1:
-        return a._data.reshape(a.struct.D[0])
+        if a.isdiag:
+            return a._data
+        return a.config.backend.permute_dims(a._data.reshape(a.struct.D[0]), a.trans)
     raise YastnError('Only tensor with a single block can be converted to raw tensor.')
 
 
